@@ -34,6 +34,9 @@ func main() {
 		os.Exit(core.WorkerMain(os.Args[2], os.Args[3], sh, n, os.Args[6]))
 	case "replay":
 		os.Exit(core.ReplayMain(os.Args[2]))
+	case "c15probe":
+		i, _ := strconv.Atoi(os.Args[2])
+		props.C15Probe(i)
 	case "corpus":
 		props.DumpCorpus()
 	case "list":
